@@ -914,10 +914,15 @@ func exec(script []string, opt comp.Options) (res comp.Result) {
 			cw.Add(2)
 			d1 := make(chan struct{})
 			go func() { defer cw.Done(); defer close(d1); call(i1, f1) }()
-			select { // the first caller is parked at the gate, or has returned
+			// the first caller is parked at the gate, or has returned. (One of the two happens; the wait must not be
+			// bounded by a short timer: a caller that reaches the gate after the timer has expired would stay parked
+			// and `d1` would never close — seen as a scenario that did not end, under heavy load.)
+			select {
 			case <-d1:
-			case <-waitHit(g, 20*time.Millisecond):
+			case <-waitHit(g, 3*time.Second):
 				tags.Add("caller-held-at-mutex")
+			case <-time.After(4 * time.Second):
+				tags.Add("leaked-goroutine")
 			}
 			go func() { defer cw.Done(); call(i2, f2) }()
 			time.Sleep(time.Duration(300+rng.Intn(700)) * time.Microsecond)
